@@ -231,6 +231,18 @@ impl InnerInMemory {
             return Some(ns.clone());
         }
 
+        match self.inner_lookup_name(name, record_type) {
+            None => self.inner_lookup_wildcard(name, record_type, lookup_options),
+            l => l.cloned(),
+        }
+    }
+
+    /// Looks up the records of the type at this very name, or the CNAME or ANAME in their place
+    fn inner_lookup_name(
+        &self,
+        name: &LowerName,
+        record_type: RecordType,
+    ) -> Option<&Arc<RecordSet>> {
         // this range covers all the records for any of the RecordTypes at a given label.
         let start_range_key = RrKey::new(name.clone(), RecordType::Unknown(u16::MIN));
         let end_range_key = RrKey::new(name.clone(), RecordType::Unknown(u16::MAX));
@@ -240,8 +252,7 @@ impl InnerInMemory {
                 && key_type == RecordType::ANAME
         }
 
-        let lookup = self
-            .records
+        self.records
             .range(&start_range_key..&end_range_key)
             // remember CNAME can be the only record at a particular label
             .find(|(key, _)| {
@@ -249,12 +260,31 @@ impl InnerInMemory {
                     || key.record_type == RecordType::CNAME
                     || aname_covers_type(key.record_type, record_type)
             })
-            .map(|(_key, rr_set)| rr_set);
+            .map(|(_key, rr_set)| rr_set)
+    }
 
-        // TODO: maybe unwrap this recursion.
-        match lookup {
-            None => self.inner_lookup_wildcard(name, record_type, lookup_options),
-            l => l.cloned(),
+    /// Returns true if the name exists in the zone: it owns records or it is an empty
+    /// non-terminal, i.e. a name below it owns records (RFC 4592 section 2.2.2).
+    pub(super) fn name_exists(&self, name: &LowerName) -> bool {
+        // in the canonical order of the keys a name is directly followed by the names below it
+        let start_range_key = RrKey::new(name.clone(), RecordType::Unknown(u16::MIN));
+        self.records
+            .range(&start_range_key..)
+            .next()
+            .is_some_and(|(key, _)| name.zone_of(key.name()))
+    }
+
+    /// Returns the source of synthesis of a name that does not exist: the wildcard below its
+    /// closest encloser, the longest ancestor of the name that exists (RFC 4592 section 3.3.1).
+    pub(super) fn source_of_synthesis(&self, name: &LowerName) -> LowerName {
+        let mut wildcard = name.clone().into_wildcard();
+        loop {
+            let closest_encloser = wildcard.base_name();
+            if closest_encloser.is_root() || self.name_exists(&closest_encloser) {
+                return wildcard;
+            }
+
+            wildcard = closest_encloser.into_wildcard();
         }
     }
 
@@ -262,62 +292,56 @@ impl InnerInMemory {
         &self,
         name: &LowerName,
         record_type: RecordType,
+        #[cfg_attr(not(feature = "__dnssec"), allow(unused_variables))]
         lookup_options: LookupOptions,
     ) -> Option<Arc<RecordSet>> {
-        // if this is a wildcard or a root, both should break continued lookups
-        if name.is_wildcard() || name.is_root() {
+        // a name that exists is not matched by a wildcard, whatever record types it has and
+        // also if it is an empty non-terminal
+        if self.name_exists(name) {
             return None;
         }
 
-        let mut wildcard = name.clone().into_wildcard();
-        loop {
-            let Some(rrset) = self.inner_lookup(&wildcard, record_type, lookup_options) else {
-                let parent = wildcard.base_name();
-                if parent.is_root() {
-                    return None;
-                }
+        // only the wildcard below the closest encloser can match, an asterisk label in the name
+        // that is looked up is not special (RFC 4592 sections 2.3 and 3.3.1)
+        let wildcard = self.source_of_synthesis(name);
+        let rrset = self.inner_lookup_name(&wildcard, record_type)?;
 
-                wildcard = parent.into_wildcard();
-                continue;
-            };
+        // we need to change the name to the query name in the result set since this was a wildcard
+        let mut new_answer =
+            RecordSet::with_ttl(Name::from(name), rrset.record_type(), rrset.ttl());
 
-            // we need to change the name to the query name in the result set since this was a wildcard
-            let mut new_answer =
-                RecordSet::with_ttl(Name::from(name), rrset.record_type(), rrset.ttl());
-
-            #[allow(clippy::needless_late_init)]
-            let records;
-            #[allow(clippy::needless_late_init)]
-            let _rrsigs: Vec<&Record>;
-            cfg_if! {
-                if #[cfg(feature = "__dnssec")] {
-                    let (records_tmp, rrsigs_tmp) = rrset
-                        .records(lookup_options.dnssec_ok)
-                        .partition(|r| r.record_type() != RecordType::RRSIG);
-                    records = records_tmp;
-                    _rrsigs = rrsigs_tmp;
-                } else {
-                    let (records_tmp, rrsigs_tmp) = (rrset.records_without_rrsigs(), Vec::with_capacity(0));
-                    records = records_tmp;
-                    _rrsigs = rrsigs_tmp;
-                }
-            };
-
-            for record in records {
-                new_answer.add_rdata(record.data.clone());
+        #[allow(clippy::needless_late_init)]
+        let records;
+        #[allow(clippy::needless_late_init)]
+        let _rrsigs: Vec<&Record>;
+        cfg_if! {
+            if #[cfg(feature = "__dnssec")] {
+                let (records_tmp, rrsigs_tmp) = rrset
+                    .records(lookup_options.dnssec_ok)
+                    .partition(|r| r.record_type() != RecordType::RRSIG);
+                records = records_tmp;
+                _rrsigs = rrsigs_tmp;
+            } else {
+                let (records_tmp, rrsigs_tmp) = (rrset.records_without_rrsigs(), Vec::with_capacity(0));
+                records = records_tmp;
+                _rrsigs = rrsigs_tmp;
             }
+        };
 
-            #[cfg(feature = "__dnssec")]
-            for rrsig in _rrsigs {
-                let mut rrsig = rrsig.clone();
-                if rrsig.name == *wildcard {
-                    rrsig.name = Name::from(name);
-                }
-                new_answer.insert_rrsig(rrsig)
-            }
-
-            return Some(Arc::new(new_answer));
+        for record in records {
+            new_answer.add_rdata(record.data.clone());
         }
+
+        #[cfg(feature = "__dnssec")]
+        for rrsig in _rrsigs {
+            let mut rrsig = rrsig.clone();
+            if rrsig.name == *wildcard {
+                rrsig.name = Name::from(name);
+            }
+            new_answer.insert_rrsig(rrsig)
+        }
+
+        Some(Arc::new(new_answer))
     }
 
     /// Returns true if the record set is the NS set of a delegation point: NS exists without SOA.
@@ -963,7 +987,16 @@ impl InnerInMemory {
     pub(super) fn replace_any(&self, name: &LowerName) -> RecordType {
         // Check for some commonly used record types first: CNAME, A, AAAA, and MX. These are
         // listed in RFC 8482 section 4.3. If none of these four record types are present, then
-        // pick any other record type, if available.
+        // pick any other record type, if available. For a name that does not exist the records
+        // of its source of synthesis are the ones that can be returned.
+        let wildcard;
+        let name = match self.name_exists(name) {
+            true => name,
+            false => {
+                wildcard = self.source_of_synthesis(name);
+                &wildcard
+            }
+        };
         let start_range_key = RrKey::new(name.clone(), RecordType::Unknown(u16::MIN));
         let end_range_key = RrKey::new(name.clone(), RecordType::Unknown(u16::MAX));
         let mut first_rrtype = None;
